@@ -422,6 +422,26 @@ def gen(srcdir):
     fnames = re.findall(STR + r'\s*=>\s*Self::(\w+)', fs)
     need(len(fnames) >= 10, 'function names')
     emit('Definition function_names : list (string * string) := [' + ';\n  '.join('(%s, %s)' % (cq(a), cq(b)) for a, b in fnames) + '].')
+    # arity each function insists on: the accessor its arm of eval_function applies to the whole argument list
+    ef = body_after(fn, r'pub fn eval_function', what='functions.rs eval_function')
+    arms = re.split(r'Function::(\w+)\s*=>', ef)
+    accessors = [(r'args\.one_number\(\)', 1), (r'args\.number_pair\(\)', 2), (r'args\.number_triple\(\)', 3),
+                 (r'args\.pair\(\)', 2), (r'args\.string_pair\(\)', 2), (r'args\.one_string\(\)', 1)]
+    arity = []
+    for k in range(1, len(arms) - 1, 2):
+        name, text = arms[k], arms[k + 1]
+        found = []
+        for rx, n in accessors:
+            mm = re.search(rx, text)
+            if mm:
+                found.append((mm.start(), n))
+        mm = re.search(r'let \[(\w+(?:\s*,\s*\w+)*)\] = &args\.flatten\(\)', text)
+        if mm:
+            found.append((mm.start(), len(mm.group(1).split(','))))
+        if found:
+            arity.append((name, sorted(found)[0][1]))
+    need(len(arity) >= 30, 'functions.rs eval_function argument accessors')
+    emit('Definition function_arity : list (string * nat) := [' + '; '.join('(%s, %d%%nat)' % (cq(a), n) for a, n in arity) + '].')
     ex = read(srcdir, 'expression.rs')
     m = re.search(r'const MAX_EXPR_DEPTH: usize = (\d+);', ex)
     need(m, 'MAX_EXPR_DEPTH')
